@@ -844,3 +844,11 @@ def decorator_factory_is_applied():
 
 def decorator_that_drops_an_argument():
     return _shifted_sum_lost([1.0, 2.0, 3.0], offset=0.5)
+
+
+def tuple_is_not_a_list():
+    picked = [(1.0, "a"), (2.0, "b")]
+    nums, labs = zip(*picked)
+    if not isinstance(labs, list):
+        labs = [labs] * len(nums)
+    return len(labs), isinstance(nums, tuple), isinstance([1.0], list), isinstance((1.0,), list)
